@@ -99,7 +99,8 @@ Fixpoint small_seqs (v : nvalue) : bool :=
 
 (* ---- the scope of the re-encode theorem (C18) ---- *)
 (* JSON values as serde_json holds them: strings are valid UTF-8 byte strings, object keys are
-   strictly ascending, arrays and objects of moderate length (beyond that: known finding F9) *)
+   strictly ascending, arrays of moderate length (beyond that: known finding F9; objects need no
+   such bound, every entry of a map starts with its key's length prefix) *)
 Fixpoint json_wf (j : json) : bool :=
   match j with
   | JFloat b => (b <? 2 ^ 64) && f64_finite b
@@ -107,7 +108,7 @@ Fixpoint json_wf (j : json) : bool :=
   | JArr l => forallb json_wf l && (N.of_nat (length l) <=? 65536)
   | JObj kvs =>
     forallb (fun kv => bytes_okb (fst kv) && utf8_valid (fst kv) && (N.of_nat (length (fst kv)) <? 2 ^ 64) && json_wf (snd kv)) kvs
-    && keys_ascending (map fst kvs) && (N.of_nat (length kvs) <=? 65536)
+    && keys_ascending (map fst kvs) && (N.of_nat (length kvs) <? 2 ^ 64)
   | _ => true
   end.
 
